@@ -131,6 +131,32 @@ func r19b(c *an.Ctx) {
 	if fn := c.MustFn(evPkg, "FifoBuffer.PopMultiple"); fn != nil {
 		c.Subject()
 		copyFromHead, resliceFromN, locked := false, false, true
+		var copied *ssa.Slice // buffer[0:n] handed to copy
+		var copyDst ssa.Value
+		an.Instrs(fn, func(in ssa.Instruction) {
+			if x, ok := in.(*ssa.Call); ok && an.CalleeName(&x.Call) == "builtin.copy" {
+				if sl, ok := x.Call.Args[1].(*ssa.Slice); ok && bufField(sl.X) {
+					copied, copyDst = sl, x.Call.Args[0]
+				}
+			}
+		})
+		// sameCount: v is the number of elements popped: len(result), the upper bound of the copied prefix, or the length
+		// the result was made with
+		sameCount := func(v ssa.Value) bool {
+			if v == nil || copied == nil {
+				return false
+			}
+			if call, ok := v.(*ssa.Call); ok && an.CalleeName(&call.Call) == "builtin.len" {
+				return true // len(result) (the only other slice in the function is the buffer itself, see below)
+			}
+			if copied.High != nil && (copied.High == v || an.ExprKey(copied.High) == an.ExprKey(v)) {
+				return true
+			}
+			if mk, ok := an.Strip(copyDst).(*ssa.MakeSlice); ok && (mk.Len == v || an.ExprKey(mk.Len) == an.ExprKey(v)) {
+				return true
+			}
+			return false
+		}
 		an.Instrs(fn, func(in ssa.Instruction) {
 			switch x := in.(type) {
 			case *ssa.Call:
@@ -150,6 +176,10 @@ func r19b(c *an.Ctx) {
 				if bufField(x.Addr) {
 					if sl, ok := x.Val.(*ssa.Slice); ok && bufField(sl.X) && sl.Low != nil && sl.High == nil {
 						if call, ok := sl.Low.(*ssa.Call); ok && an.CalleeName(&call.Call) == "builtin.len" {
+							if !bufField(call.Call.Args[0]) {
+								resliceFromN = true
+							}
+						} else if sameCount(sl.Low) {
 							resliceFromN = true
 						}
 					}
